@@ -550,6 +550,23 @@ fn s_join() -> Result<(), String> {
     if l.len() != 4 || r.len() != 5 {
         return Err("setup: base tables do not read back".into());
     }
+    // a WHERE clause over a left join filters the joined rows; it does not change which left rows count as unmatched
+    {
+        let on = || Expr::col("L.K").eq(Expr::col("R.F"));
+        let joined = all(&mut p, Select::table("L").left_join(Select::table("R"), on()))?;
+        for (what, cond, keep) in [
+            ("R.Id != 10", Expr::col("R.Id").ne(Expr::integer(10)), Box::new(|r: &Vec<Value>| r[2] != Value::Int(10)) as Box<dyn Fn(&Vec<Value>) -> bool>),
+            ("R.Id != 11", Expr::col("R.Id").ne(Expr::integer(11)), Box::new(|r: &Vec<Value>| r[2] != Value::Int(11))),
+            ("R.Id < 11", Expr::col("R.Id").lt(Expr::integer(11)), Box::new(|r: &Vec<Value>| r[2] < Value::Int(11))),
+            ("L.K > 1", Expr::col("L.K").gt(Expr::integer(1)), Box::new(|r: &Vec<Value>| r[0] > Value::Int(1))),
+        ] {
+            let got = all(&mut p, Select::table("L").left_join(Select::table("R"), on()).with(cond))?;
+            let want: Vec<Vec<Value>> = joined.iter().filter(|r| keep(r)).cloned().collect();
+            if got != want {
+                return Err(format!("L LEFT JOIN R ON L.K = R.F WHERE {} returned {:?}; filtering the unfiltered left join gives {:?}", what, got, want));
+            }
+        }
+    }
     // self-joins: both sides contribute the same prefixed names; a name means its first (left) occurrence
     for left in [false, true] {
         let on = Expr::col("L.K").lt(Expr::integer(3));
@@ -1143,13 +1160,24 @@ fn replay_row_limit() {
     let run = || -> Result<Option<String>, String> {
         let m = Medium::new();
         let mut p = Package::create(PackageType::Installer, m.clone()).map_err(|e| e.to_string())?;
-        p.create_table("Big", vec![Column::build("K").primary_key().int32()]).map_err(|e| e.to_string())?;
+        p.create_table("Big", vec![Column::build("K").primary_key().int32(), Column::build("S").nullable().string(0)]).map_err(|e| e.to_string())?;
         let limit = 65536;
-        p.insert_rows(Insert::into("Big").rows((1..=limit - 1).map(|i| vec![Value::Int(i)]).collect())).map_err(|e| format!("filling the table failed: {}", e))?;
-        p.insert_rows(Insert::into("Big").row(vec![Value::Int(limit)])).map_err(|e| format!("the {}th row is refused: {}", limit, e))?;
-        let one_more = p.insert_rows(Insert::into("Big").row(vec![Value::Int(limit + 1)]));
-        let two_more = p.insert_rows(Insert::into("Big").rows(vec![vec![Value::Int(limit + 2)], vec![Value::Int(limit + 3)]]));
+        p.insert_rows(Insert::into("Big").rows((1..=limit - 1).map(|i| vec![Value::Int(i), if i % 2 == 0 { Value::from("even") } else { Value::Null }]).collect()))
+            .map_err(|e| format!("filling the table failed: {}", e))?;
+        p.insert_rows(Insert::into("Big").row(vec![Value::Int(limit), Value::from("last")])).map_err(|e| format!("the {}th row is refused: {}", limit, e))?;
+        let one_more = p.insert_rows(Insert::into("Big").row(vec![Value::Int(limit + 1), Value::from("RejectedMarkerOne")]));
+        let two_more = p.insert_rows(Insert::into("Big").rows(vec![vec![Value::Int(limit + 2), Value::from("RejectedMarkerTwo")], vec![Value::Int(limit + 3), Value::Null]]));
         p.into_inner().map_err(|e| e.to_string())?;
+        {
+            use crate::internal::streamname;
+            let mut comp = cfb::CompoundFile::open(Cursor::new(m.snapshot())).map_err(|e| e.to_string())?;
+            let mut data = Vec::new();
+            comp.open_stream(streamname::encode("_StringData", true)).map_err(|e| e.to_string())?.read_to_end(&mut data).map_err(|e| e.to_string())?;
+            let hay = String::from_utf8_lossy(&data).to_string();
+            if (one_more.is_err() && hay.contains("RejectedMarkerOne")) || (two_more.is_err() && hay.contains("RejectedMarkerTwo")) {
+                return Ok(Some(format!("an insert refused for exceeding {} rows left the text of its rows in the saved string data", limit)));
+            }
+        }
         let mut q = match Package::open(Cursor::new(m.snapshot())) {
             Ok(q) => q,
             Err(e) => return Ok(Some(format!("after inserting beyond {} rows (results {:?}, {:?}) the package does not reopen: {}", limit, one_more.is_ok(), two_more.is_ok(), e))),
